@@ -1,4 +1,6 @@
 import itertools
+import math
+import numbers
 import re
 from collections import Counter, defaultdict, namedtuple
 from functools import cached_property
@@ -397,7 +399,17 @@ class CFG:
             A new CFG with integer nonterminals
         """
         i = Integerizer()
-        max_v = max((x for x in self.V if isinstance(x, int)), default=0)
+        # terminals may be numbers that compare (and hash) equal to ints without
+        # being `int` instances (numpy integers, floats): the new names must
+        # stay clear of all of them
+        max_v = max(
+            (
+                math.ceil(x)
+                for x in self.V
+                if isinstance(x, numbers.Real) and math.isfinite(x)
+            ),
+            default=0,
+        )
         return self.rename(lambda x: i(x) + max_v + 1)
 
     def rename(self, f):
